@@ -9,7 +9,7 @@
     does not claim).  What remains wrong about branches is their SIZE in pass 1 (C03 findings), not
     where they go. *)
 From Coq Require Import List ZArith String Bool Lia.
-From Gosk Require Import Base.Bytes Model.Eval Model.Asm Spec.Branch Generated.Tables Lemmas.BranchLemmas.
+From Gosk Require Import Base.Bytes Model.Ast Model.Eval Model.Asm Spec.Branch Generated.Tables Lemmas.BranchLemmas Lemmas.AsmLemmas Lemmas.C04Program.
 Import ListNotations.
 Local Open Scope Z_scope.
 
@@ -64,3 +64,17 @@ Proof.
   - apply (jmp_total_lands M16 200 72 []); cbn; lia.
   - apply (jmp_total_lands M16 0 49664 []); cbn; lia.
 Qed.
+
+(** In the image (whole programs, any encoder, any other statements around): the bytes the emission fold writes for a
+    JMP / Jcc / CALL to a label are in the final image at the offset the fold had reached, and decode there to a branch of
+    the named kind landing on the value the symbol table holds for the label - which C03 shows to be the label's real
+    offset whenever the sizes agree. *)
+Theorem C04_image_branch_lands : forall (E : encoder) m st dol os1 md name l os2 bs d dest k,
+  codegen E m st dol [] false (os1 ++ OJcc md name (JLabel l) :: os2) = GOk bs d ->
+  lookup l st = Some dest -> kind_of name = Some k ->
+  (name = "JMP" \/ name = "CALL" \/ In name jcc_names)%string ->
+  exists b1 d1 b rest, codegen E m st dol [] false os1 = GOk b1 d1 /\ bs = b1 ++ b ++ rest /\
+    let addr := dol + zlen b1 in let rel := dest - addr in
+    (- 2 ^ 31 + 7 <= rel < 2 ^ 31 -> ~ (-32768 <= rel - 2 <= -32767) -> lands md k addr dest b rest).
+Proof. exact image_branch_lands. Qed.
+Print Assumptions C04_image_branch_lands.
